@@ -29,18 +29,35 @@ func NewPrefixed(logger *logger.Logger) *Prefixed {
 }
 
 func (p *Prefixed) WrapWriter(stdOut, _ io.Writer, prefix string, _ *templater.Cache) (io.Writer, io.Writer, CloseFunc) {
-	pw := &prefixWriter{writer: stdOut, prefix: prefix, prefixed: p}
-	return pw, pw, func(error) error { return pw.close() }
+	// stdout and stderr are buffered separately: a line is only whole when the
+	// two streams do not share one line buffer
+	pwOut := &prefixWriter{writer: stdOut, prefix: prefix, prefixed: p}
+	pwErr := &prefixWriter{writer: stdOut, prefix: prefix, prefixed: p}
+	return pwOut, pwErr, func(error) error {
+		errOut := pwOut.close()
+		errErr := pwErr.close()
+		if errOut != nil {
+			return errOut
+		}
+		return errErr
+	}
 }
 
 type prefixWriter struct {
 	writer   io.Writer
 	prefixed *Prefixed
 	prefix   string
+	mutex    sync.Mutex
 	buff     bytes.Buffer
 }
 
+// Write buffers the output and emits the complete lines. The same writer
+// serves as stdout and stderr of a command and the shell may write to them
+// from several goroutines (e.g. the stages of a pipeline), so the buffer is
+// guarded by a mutex.
 func (pw *prefixWriter) Write(p []byte) (int, error) {
+	pw.mutex.Lock()
+	defer pw.mutex.Unlock()
 	n, err := pw.buff.Write(p)
 	if err != nil {
 		return n, err
@@ -50,6 +67,8 @@ func (pw *prefixWriter) Write(p []byte) (int, error) {
 }
 
 func (pw *prefixWriter) close() error {
+	pw.mutex.Lock()
+	defer pw.mutex.Unlock()
 	return pw.writeOutputLines(true)
 }
 
